@@ -247,7 +247,7 @@ def check(prop, tier, only_obligation=None):
     t0 = time.time()
     seed = int(os.environ.get("VERIF_SEED", "0") or 0)
     units = load_units()
-    sel = [u for u in units.values() if prop in u.props()]
+    sel = [u for u in units.values() if prop in u.props() or any(prop in pr for _, pr, _, _ in R.lemma_obligations(u))]
     extra = []
     mod_extra = os.path.join(VERIF, "engine", "extra_checks.py")
     results = []
